@@ -400,6 +400,7 @@ def mgda_loop():
         a = frame.vars["alpha"]
         frame.vars["alpha"] = ATen(cx.fresh_const("alpha", ArrS), a.shape_l, a.dtype, a.kind)
         cx.ghost["mgda_alpha_exit"] = frame.vars["alpha"]
+        frame.vars["__alpha_in__"] = frame.vars["alpha"].term
 
     def inv(cx, frame, i):
         G = frame.vars["gramian"]
@@ -412,7 +413,21 @@ def mgda_loop():
         a = frame.vars["alpha"].term
         a0 = frame.vars["__alpha0__"]
         return [("sum_is_one", vsum(a) == 1), ("nonnegative", nonneg(a)), ("norm_never_increases", bil(a, a) <= bil(a0, a0))]
-    return LoopSpec(havoc, inv, has_break=True)
+    def post_body(cx, frame, i):
+        """One iteration is an exact-line-search Frank-Wolfe step (Lean: IsFWStep / fwGamma_optimal, fw_rate):
+        t = argmin(G alpha), alpha' = (1-gamma) alpha + gamma e_t with gamma minimising the quadratic on [0, 1]."""
+        vsum, nonneg, bil = frame.vars["__mgda_ax__"]
+        G = frame.vars["gramian"]
+        m = frame.vars["matrix"].shape_l[0]
+        ain = frame.vars["__alpha_in__"]
+        t = U("argmin_i", z3.IntSort(), U("matvec", ArrS, G.term, ain))
+        e = U("setitem", ArrS, U("zeros", ArrS, lift(m)), t, z3.RealVal(1))
+        a, b, c = bil(ain, e), bil(ain, ain), bil(e, e)
+        gamma = z3.If(c <= a, z3.RealVal(1), z3.If(b <= a, z3.RealVal(0), (b - a) / (b + c - 2 * a)))
+        new = U("eadd", ArrS, U("smul", ArrS, 1 - gamma, ain), U("smul", ArrS, gamma, e))
+        g = frame.vars["gamma"]
+        return [("exact_line_search_step", z3.And(as_real(g) == gamma, frame.vars["alpha"].term == new))]
+    return LoopSpec(havoc, inv, has_break=True, post_body=post_body)
 
 
 AGG_LOOPS[(f"{AGG}.mgda._MGDAWeighting._frank_wolfe_solver", 0)] = mgda_loop()
@@ -431,3 +446,83 @@ GRADDROP = {w: AggSpec("GradDrop." + ("leak" if w else "default"), f"{AGG}.gradd
                        spec_graddrop, weighted=False) for w in (False, True)}
 SPECS["GradDrop.default"] = GRADDROP[False]
 SPECS["GradDrop.leak"] = GRADDROP[True]
+
+
+# ----------------------------------------------------------------------------- PCGrad
+
+
+def pc_step(it, G: ATen, w: ATen, i, j_elem):
+    """one projection step in weight space (spec): skip j = i; if <g_j, g_cur> = G[j].w < 0: w[j] -= G[j].w / G[j,j]"""
+    cx = it.cx
+    with cx.mute():
+        j = j_elem.intval
+        ip = S.matmul(it, P.getitem(it, G, j_elem), w)
+        ipr = item_of(ip)
+        gjj = item_of(P.getitem(it, G, (j_elem, j_elem)))
+        cur = item_of(P.getitem(it, w, j_elem))
+        upd = U("setitem", ArrS, w.term, j, z3.simplify(cur - ipr / gjj))
+        return z3.If(j == lift(i), w.term, z3.If(ipr < 0, upd, w.term))
+
+
+def pcgrad_loops():
+    def fns(cx):
+        if "pc_PC" not in cx.ghost:
+            cx.ghost["pc_PC"] = cx.fresh_func("PC", z3.IntSort(), z3.IntSort(), ArrS)   # PC(i, k): row i after k projections
+            cx.ghost["pc_W"] = cx.fresh_func("W", z3.IntSort(), ArrS)                    # W(i): sum of the first i projected rows
+        return cx.ghost["pc_PC"], cx.ghost["pc_W"]
+
+    # ---- outer loop (ordinal 0): for i in range(dimension)
+    def o_havoc(cx, frame, i):
+        w = frame.vars["weights"]
+        frame.vars["weights"] = ATen(cx.fresh_const("weights", ArrS), w.shape_l, w.dtype, w.kind)
+        cx.ghost["rng"] = z3.Int("rng0") + lift(i)  # one permutation is drawn per row
+        cx.ghost["pc_outer_i"] = lift(i)
+
+    def o_inv(cx, frame, i):
+        PC, W = fns(cx)
+        n = frame.vars["dimension"]
+        w = frame.vars["weights"]
+        if "pc_rng0" not in cx.ghost:
+            cx.ghost["pc_rng0"] = True
+            cx.assume(z3.Int("rng0") == lift(cx.ghost.get("rng", 0)) if not isinstance(cx.ghost.get("rng", 0), z3.ExprRef) else z3.BoolVal(True))
+        cx.assume(W(0) == U("zeros", ArrS, lift(n)), tag="PCGrad spec recursion")
+        cx.assume(W(lift(i) + 1) == U("eadd", ArrS, W(lift(i)), PC(lift(i), lift(n))), tag="PCGrad spec recursion")
+        return [("partial_sum_of_projected_rows", w.term == W(lift(i)))]
+
+    # ---- inner loop (ordinal 1): for j in permutation
+    def i_havoc(cx, frame, k):
+        c = frame.vars["current_weights"]
+        frame.vars["current_weights"] = ATen(cx.fresh_const("cw", ArrS), c.shape_l, c.dtype, c.kind)
+
+    def i_inv(cx, frame, k):
+        PC, W = fns(cx)
+        it = cx.ghost["interp"]
+        i = frame.vars["i"]
+        G = frame.vars["inner_products"]
+        perm = frame.vars["permutation"]
+        n = frame.vars["dimension"]
+        cw = frame.vars["current_weights"]
+        cx.assume(PC(lift(i), 0) == U("setitem", ArrS, U("zeros", ArrS, lift(n)), lift(i), z3.RealVal(1)), tag="PCGrad spec recursion")
+        prev = ATen(PC(lift(i), lift(k)), cw.shape_l, cw.dtype, cw.kind)
+        with cx.mute():
+            jel = P.getitem(it, perm, lift(k))
+        cx.assume(PC(lift(i), lift(k) + 1) == pc_step(it, G, prev, i, jel), tag="PCGrad spec recursion")
+        return [("row_i_after_k_projections", cw.term == PC(lift(i), lift(k)))]
+    return LoopSpec(o_havoc, o_inv), LoopSpec(i_havoc, i_inv)
+
+
+_o, _i = pcgrad_loops()
+AGG_LOOPS[(f"{AGG}.pcgrad._PCGradWeighting.forward", 0)] = _o
+AGG_LOOPS[(f"{AGG}.pcgrad._PCGradWeighting.forward", 1)] = _i
+
+
+def spec_pcgrad(it, J, m, n, cfg, cx):
+    W = cx.ghost.get("pc_W")
+    if W is None:
+        return []
+    w = ATen(W(lift(m)), [m], J.dtype)
+    return [(TRUE, vecmat(it, w, J))]
+
+
+SPECS["PCGrad"] = AggSpec("PCGrad", f"{AGG}.pcgrad.PCGrad", [f"{AGG}.pcgrad._PCGradWeighting.forward"] + BASE_FUNCS, no_cfg,
+                          lambda cx, J, m, n, cfg: TRUE, spec_pcgrad)
